@@ -240,3 +240,97 @@ func VerifC11Flood() {
 	}
 	vapi.Reach("flood-end")
 }
+
+// VerifC02Many: a long run of frames arrives ahead of one missing lower-numbered frame (a connection that stalls
+// while the others keep delivering): nothing is refused or lost however many frames are parked, and once the missing
+// frame arrives everything is delivered in order.
+func VerifC02Many() {
+	n := vapi.Param("n", 1500)
+	sb := NewStreamBuffer()
+	first := vapi.Bytes("first", 2)
+	last := vapi.Bytes("last", 1)
+	for i := n; i >= 1; i-- { // descending arrival: every frame is parked
+		pl := []byte{byte(i)}
+		if i == n {
+			pl = last
+		}
+		_, err := sb.Write(&Frame{Seq: uint64(i), Payload: pl})
+		vapi.Assert(err == nil, "C02: a frame ahead of a missing one is kept, however many are already waiting")
+		if err != nil {
+			return
+		}
+	}
+	_, err := sb.Write(&Frame{Seq: 0, Payload: first})
+	vapi.Assert(err == nil, "C02: the missing frame is accepted")
+	got := make([]byte, n+8)
+	total := 0
+	for total < n+2 {
+		r, rerr := sb.Read(got[total:])
+		vapi.Assert(rerr == nil && r > 0, "C02: everything becomes readable once the gap is filled")
+		if rerr != nil || r == 0 {
+			break
+		}
+		total += r
+	}
+	vapi.Assert(total == n+2, "C02: every payload is delivered exactly once")
+	ok := total == n+2 && got[0] == first[0] && got[1] == first[1] && got[n+1] == last[0]
+	for i := 1; i < n && ok; i++ {
+		if got[i+1] != byte(i) {
+			ok = false
+		}
+	}
+	vapi.Assert(ok, "C02: payloads concatenated in sequence-number order")
+	vapi.Reach("many-end")
+}
+
+// VerifC19Build: the token buckets built for a user's configured rates refill at that rate (within the limiter's
+// documented 1% granularity) and hold one second's worth of burst, for small, odd and large rates alike.
+func VerifC19Build() {
+	rates := []int64{1, 2, 7, 100, 999, 1000, 1001, 1500, 1999, 12345, 65537, 1 << 20, 1<<20 + 1, 16401, 123456789, 1 << 30}
+	rate := rates[vapi.Pick("rate", len(rates))]
+	v := MakeValve(rate, rate)
+	for _, tb := range []interface {
+		Rate() float64
+		Capacity() int64
+	}{v.rxtb, v.txtb} {
+		r := tb.Rate()
+		d := r - float64(rate)
+		if d < 0 {
+			d = -d
+		}
+		vapi.Assert(d <= 0.01*float64(rate), "C19: the bucket refills at the configured rate (1% granularity)")
+		vapi.Assert(tb.Capacity() == rate, "C19: the bucket holds one second's worth of the configured rate")
+	}
+	vapi.Reach("build-end")
+}
+
+// VerifC03StalledWrite: the peer's closing frame comes up while a local Write on the same stream is held up inside
+// the connection (back-pressure): the close is still processed - the reader gets the bytes and then the
+// broken-stream error, the connection reader is not held hostage by the stalled writer.
+func VerifC03StalledWrite() {
+	vapi.RandZero(true)
+	key := c04Key()
+	sesh, a, _ := c14Session(0, key, 14+255+4, false)
+	st, _ := sesh.OpenStream()
+	st.Write(vapi.Bytes("H", 1))
+	B := vapi.Bytes("B", 2)
+	sesh.recvDataFromRemote(refEncode(0, key, st.id, 0, 0, B, nil, vapi.Bytes("t0", 8)))
+	a.StallWrite = true
+	wdone, rdone := false, false
+	var werr, rerr error
+	var got []byte
+	go func() { _, werr = st.Write(vapi.Bytes("W", 1)); wdone = true }()
+	go func() { got, rerr = vReadAll(st, 4); rdone = true }()
+	vapi.Quiesce() // the writer is inside conn.Write, the reader has B and waits for more
+	sesh.recvDataFromRemote(refEncode(0, key, st.id, 1, closingStream, vapi.Bytes("pad", 1), nil, vapi.Bytes("t1", 8)))
+	vapi.Quiesce()
+	vapi.Assert(rdone && rerr == ErrBrokenStream && vapi.BytesEq(got, B), "C03: the reader gets the bytes and then the broken-stream error although a local write is stalled")
+	vapi.Assert(st.isClosed(), "C03: the peer's close is processed while a local write is stalled")
+	a.Unstall()
+	vapi.Quiesce()
+	vapi.Assert(wdone, "C03: the stalled write returns once the connection drains")
+	_, e := st.Write([]byte{1})
+	vapi.Assert(e == ErrBrokenStream, "C03: writes fail once the peer's close has been processed")
+	_ = werr
+	vapi.Reach("stalled-end")
+}
